@@ -310,6 +310,8 @@ impl ForkServer {
         }
         if let Some(tmp) = tmpdir {
             msg.push_str(&format!("ENV TMPDIR={}\n", tmp.display()));
+            // the user's home directory belongs to the group too (durable state under ~/.cache etc.)
+            msg.push_str(&format!("ENV HOME={}\n", tmp.with_file_name("home").display()));
         }
         for (i, a) in args.iter().enumerate() {
             if a.contains('\n') {
@@ -426,6 +428,7 @@ pub fn launch_program(
     // what one launch leaves behind is there for the next launch of the same group (as on a real
     // machine) and for nobody else (so that the history is replayable).
     cmd.env("TMPDIR", scratch.join("tmp"));
+    cmd.env("HOME", scratch.join("home"));
     cmd.env("LD_PRELOAD", &env.shim);
     cmd.env("GRAMSIM_KEY", plan.key_hex());
     cmd.env("GRAMSIM_LOG", &log_path);
